@@ -40,7 +40,8 @@ def ramp_as_c(nonzero=False):
 @st.composite
 def sites_st(draw, max_modes=6, max_sites=4, min_sites=1, spins=(1, 2, 3), orbitals=(1, 2, 3), spin_weights=None,
              labels=LABELS, homogeneous=False):
-    n = draw(st.integers(min_sites, max_sites))
+    minsite_ = min(o * s for o in orbitals for s in spins)
+    n = draw(st.integers(min_sites, max(min_sites, min(max_sites, max_modes // minsite_))))
     labs = draw(st.lists(st.sampled_from(labels), min_size=n, max_size=n, unique=True))
     sites = []
     left = max_modes
